@@ -261,9 +261,18 @@ def _check_graph(lab, i, desc, out, phase):
             if compatible and (cls[a] not in _IC_POS or any(cls[c] != cls[a] for c in com)):
                 continue                 # common hypernyms outside the pair's IC table
             results = {}
+            # Lin's formula has no value when IC(c1) + IC(c2) = 0 with non-zero terms (only
+            # possible for weights with probability > 1): nothing is demanded of lin there
+            lin_undefined = False
+            if compatible and com:
+                s1, s2 = info(a), info(b)
+                lin_undefined = (s1 != 0 and s2 != 0
+                                 and abs(s1 + s2) <= 1e-9 * (abs(s1) + abs(s2)))
             for name, fn in (('res', S.res), ('jcn', S.jcn), ('lin', S.lin)):
                 key = (name, a, b, f'ic{q}')
                 st_, val = G.guarded(fn, sa, sb, freq)
+                if name == 'lin' and lin_undefined:
+                    continue
                 if st_ == 'exception':
                     disc(f'exception:{val[0]}', f'in {val[1]}', 'no exception', val[2],
                          f'{name}{key[1:]} {ic["mode"]}')
@@ -312,7 +321,7 @@ def _check_graph(lab, i, desc, out, phase):
                 key, r = results['lin']
                 if ic1 == 0 or ic2 == 0:
                     expect_value('lin', key, r, [0.0], ic['mode'])
-                elif abs(ic1 + ic2) > 1e-9 * (abs(ic1) + abs(ic2)):
+                else:
                     expect_value('lin', key, r, [2 * info(l) / (ic1 + ic2) for l in lcs],
                                  ic['mode'])
         _symmetry(res_ic, disc)
